@@ -281,6 +281,22 @@ def _report_bad(ctx, fi, k, where, vt):
 
 
 # ------------------------------------------------------------------ R2 (SM3, Tearfree)
+def _rank_witness(nd):
+  """oracle: comparisons of `<x>.ndim` / len(<x>.shape) with an integer constant are folded for tensor rank `nd`"""
+  import operator as _op
+  OPS = {'<': _op.lt, '<=': _op.le, '>': _op.gt, '>=': _op.ge, '==': _op.eq, '!=': _op.ne}
+
+  def oracle(c):
+    if c.op == 'cmp' and c.args[0] in OPS and is_const(c.args[2]) and isinstance(cval(c.args[2]), int) and not isinstance(cval(c.args[2]), bool):
+      l = strip_casts(c.args[1])
+      is_rank = (l.op == 'attr' and l.args[1] == 'ndim') or \
+          (l.op == 'call' and l.args[0].op == 'builtin' and l.args[0].args[0] == 'len' and l.args[1] and l.args[1][0].op == 'attr' and l.args[1][0].args[1] == 'shape')
+      if is_rank:
+        return bool(OPS[c.args[0]](nd, cval(c.args[2])))
+    return None
+  return oracle
+
+
 def other_layouts(ctx):
   m = ctx.model
   # SM3
@@ -290,7 +306,7 @@ def other_layouts(ctx):
   for rank1 in (False, True):
     d = Decider(truth={'normalize_grads': False}, cmps={('weight_decay', '>', 0.0): False},
                 calls={('callable', 'learning_rate'): False},
-                extra=lambda c, rank1=rank1: (rank1 if (c.op == 'cmp' and c.args[0] in ('<', '==') and is_const(c.args[2]) and 'ndim' in show(c.args[1], maxdepth=4)) else None))
+                extra=_rank_witness(1 if rank1 else 2))
     ev = evaluator(m, decide=d)
     P = sym('spec', 'param')
     s0 = per_param_init(ev, fi0, P)
